@@ -19,7 +19,7 @@ func profRestart(en *Env) {
 	}
 	for t := 0; t < traces; t++ {
 		cfg := h.CoverCfg(en.R, t, smallLimits)
-		randomWorkload(en, cfg, 3+en.R.Intn(6), genOpts{batches: true, merges: true, restarts: true, ops: ops, prof: "restart"},
+		randomWorkload(en, cfg, 3+en.R.Intn(6), genOpts{batches: true, merges: true, restarts: true, backups: t%2 == 1, ops: ops, prof: "restart"},
 			func() h.Cfg { return h.RandCfg(en.R, smallLimits) })
 	}
 	// end-offset sweep
